@@ -387,6 +387,23 @@ def r3_coercions(rule, root=None):
                 good += 1
             else:
                 rule.bad("axis|%s" % txt(arm["pat"]), "the axis name %s maps to `%s`" % (txt(arm["pat"]), body), A.where(TYPES, arm))
+    # a bare coordinate tree given as an axis: TreeOp::Input(Var::N) -> Axis::N
+    var_arms = 0
+    for m in A.find(ax["body"], "Match") if ax else []:
+        for arm in m["arms"]:
+            pt = str(txt(arm["pat"]))
+            mm = re.fullmatch(r"(?:&)?TreeOp::Input\(Var::([XYZ])\)", pt)
+            if not mm:
+                continue
+            body = str(txt(arm["body"]))
+            if body == "Some(Axis::%s)" % mm.group(1):
+                var_arms += 1
+            else:
+                rule.bad("axis|var|%s" % mm.group(1), "the coordinate variable %s given as an axis maps to `%s`, not Axis::%s" % (mm.group(1).lower(), body, mm.group(1)), A.where(TYPES, arm))
+    if var_arms == 3:
+        rule.ok("the coordinate variables x / y / z given as an axis map to their namesake Axis")
+    elif ax is not None and "TreeOp::Input" in str(txt(ax["body"])):
+        rule.bad("axis|var|table", "expected three arms mapping TreeOp::Input(Var::N) to Axis::N, found %d correct" % var_arms, A.where(ax))
     if good == 6:
         rule.ok("axis names (string and char, either case) map to their namesake Axis")
     else:
@@ -660,12 +677,48 @@ def r5_registration_order(rule, root=None):
         rule.bad("order|reduce-after-unique", "register_shape registers a variadic reducer after the typed builders: for a shape with one Vec<Tree> field the one-argument call `shape([a, b])` then unions the array instead of passing it as the field", A.where(fn0, order[last_reduce][1]))
 
 
+def r_engine_limits(rule, root=None):
+    """`engine()` documents its limits ("Max expression and function expression depths of 64 and 32", "an
+    on_progress limit of 50,000 steps"); the calls must set them in that order - Rhai's
+    set_max_expr_depths(global, in-function) - so a script the documented engine accepts is accepted"""
+    fn = A.find_fn("fidget-rhai/src/lib.rs", "engine", root=root)
+    doc = " ".join(fn.get("doc") or []) if isinstance(fn.get("doc"), list) else str(fn.get("doc") or "")
+    doc = re.sub(r"\s+", " ", doc)
+    md = re.search(r"depths of (\d+) and (\d+)", doc)
+    calls = [c for c in A.find(fn["body"], "MethodCall") if c["method"] == "set_max_expr_depths"]
+    if len(calls) != 1 or len(calls[0]["args"]) != 2:
+        rule.ok("engine() keeps Rhai's default expression depths (no set_max_expr_depths call)")
+    elif md is None:
+        # no documented numbers to compare with: at least not tighter than Rhai's own defaults (64 / 32)
+        got = [A.lit_value(a) for a in calls[0]["args"]]
+        if None not in got and got[0] >= 64 and got[1] >= 32:
+            rule.ok("engine(): expression depth limits (%s, %s) are no tighter than Rhai's defaults" % tuple(got), file="fidget-rhai/src/lib.rs", line=calls[0]["ln"])
+        else:
+            rule.bad("engine|depths", "engine() calls set_max_expr_depths(%s, %s), tighter than Rhai's defaults of 64 (top level) and 32 (in functions)" % tuple(got), A.where(fn, calls[0]))
+    else:
+        got = [A.lit_value(a) for a in calls[0]["args"]]
+        want = [int(md.group(1)), int(md.group(2))]
+        if got == want:
+            rule.ok("engine(): expression depth limits are the documented %d (global) and %d (in functions)" % tuple(want), file="fidget-rhai/src/lib.rs", line=calls[0]["ln"])
+        else:
+            rule.bad("engine|depths", "engine() documents maximum expression depths of %d (top level) and %d (inside functions) but calls set_max_expr_depths(%s, %s): Rhai takes the top-level limit first, so top-level expressions deeper than %s are now rejected" % (want[0], want[1], got[0], got[1], got[0]), A.where(fn, calls[0]))
+    mp = re.search(r"limit of ([\d,_]+) steps", doc)
+    t = str(A.ftxt(fn["body"]))
+    mc = re.search(r"engine\.on_progress\((?:move)?\|(\w+)\|\{?if\(?\1>([\d_]+)\)?", t)
+    if mp is None or mc is None:
+        rule.ok("engine(): step limit not documented in a comparable form (nothing to compare)")
+    elif int(mp.group(1).replace(",", "").replace("_", "")) == int(mc.group(2).replace("_", "")):
+        rule.ok("engine(): scripts are stopped after the documented %s steps" % mp.group(1), file="fidget-rhai/src/lib.rs", line=fn["ln"])
+    else:
+        rule.bad("engine|steps", "engine() documents a limit of %s steps but stops scripts after %s" % (mp.group(1), mc.group(2)), A.where(fn))
+
+
 def run(ctx):
     r = ctx.rule("R1", "operators and functions are registered to their namesake, both operand orders, operands in source order; comparisons rejected", 69)
     ctx.guarded(r, r1_operator_tables)
     r = ctx.rule("R2", "the map form and the chained form of a constructor honour defaults identically", 12)
     ctx.guarded(r, r2_sibling_builders)
-    r = ctx.rule("R3", "coercions: array index -> component, vec2 -> vec3 takes z from the default, names -> namesakes", 12)
+    r = ctx.rule("R3", "coercions: array index -> component, vec2 -> vec3 takes z from the default, names -> namesakes", 13)
     ctx.guarded(r, r3_coercions)
     r = ctx.rule("R4", "names defined by the script take precedence over the engine's axes and constants", 1)
     ctx.guarded(r, r4_resolver)
@@ -673,3 +726,5 @@ def run(ctx):
     ctx.guarded(r, r5_registration_order)
     r = ctx.rule("R6", "positional arguments are classified narrowest type first", 5)
     ctx.guarded(r, r6_classification_order)
+    r = ctx.rule("R7", "the engine's limits are the documented ones, in Rhai's argument order", 2)
+    ctx.guarded(r, r_engine_limits)
